@@ -29,3 +29,17 @@ for _f in sorted(glob.glob(os.path.join(_here, "propdefs", "C*.py"))):
     _m = importlib.util.module_from_spec(_spec)
     _spec.loader.exec_module(_m)
     PROPS[_n] = _m.PROP
+
+# ---- shared "purity" pass (harness/purity.cpp): call-history exploration of the stateless API of a property
+PURITY_PROPS = ["C02", "C07", "C08", "C10", "C11", "C13", "C14", "C15", "C16", "C17", "C18", "C19"]
+PURITY_NOTE = (" A shared purity pass (harness/purity.cpp) additionally executes all call sequences of length 2 and 3 over argument variants "
+               "that keep shapes and addresses but change contents or one parameter, each in a fresh thread: every result must be bit-identical "
+               "to the same call made first in a fresh thread (memo tables keyed by pointer, length or a subset of the parameters).")
+for _pid in PURITY_PROPS:
+    if _pid in PROPS:
+        _pp = dict(name="purity", harness="purity.cpp", args=["--prop", _pid], shards=4)
+        if "driver" in PROPS[_pid]:
+            PROPS[_pid].setdefault("extra_passes", []).append(_pp)
+        else:
+            PROPS[_pid]["passes"] = list(PROPS[_pid].get("passes", [dict(name="main")])) + [_pp]
+        PROPS[_pid]["claim"] = PROPS[_pid]["claim"] + PURITY_NOTE
